@@ -77,6 +77,10 @@ def run(ctx):
         for perm in itertools.permutations(REACH[:n]):
             for _ in range(4 if not thorough else 10):
                 specs.append({"cands": list(REACH[:n]), "schedule": list(perm) + ["premain"], "mode": "observe"})
+    # the caller is held before it counts and starts each dial goroutine (whatever waits for "all dials done" must not fire early)
+    for cs in (["A"], ["A", "B"], ["B", "X"], ["A", "B", "C"]):
+        for d in ((3, 10) if not thorough else (1, 3, 10, 30)):
+            specs.append({"cands": cs, "schedule": [], "mode": "observe", "spawn_delay_ms": d})
     for extra in (["X"], ["A'"], ["T"], ["X", "A'", "T"]):
         for sched in (["A", "main", "B"], ["B", "main", "A"], ["A", "B", "main"]):
             specs.append({"cands": ["A", "B"] + extra, "schedule": sched, "mode": "observe"})
